@@ -100,4 +100,15 @@ example : Safe { durable := [1, 2, 3], sentAcks := [3] } ∧
     simp at ht
     rw [ht]
 
+/-- position of a call in the extracted handler -/
+def posOf (c : String) : Option Nat := (Bxh.Gen.readyHandler.zipIdx.find? (fun p => p.1 == c)).map (·.2)
+
+/-- the rest of etcd/raft's contract for the application, read off the extracted order: the committed entries are applied
+(`publishEntries`) and a received snapshot is installed (`recoverFromSnapshot`) only after the Ready was made durable, and
+`Advance` — which lets raft hand out the next Ready — is the last call of the handler -/
+theorem C20_ready_handler_applies_after_store_and_advances_last :
+    (do let s ← posOf "n.raftStorage.Store"; let p ← posOf "n.publishEntries"; pure (decide (s < p))) = some true ∧
+    (do let s ← posOf "n.raftStorage.Store"; let r ← posOf "n.recoverFromSnapshot"; pure (decide (s < r))) = some true ∧
+    Bxh.Gen.readyHandler.getLast? = some "n.node.Advance" := by decide
+
 end Bxh.Props.C20
